@@ -1,8 +1,25 @@
 (* C08 — dealer, small blind and big blind land on the right seats. *)
-From PF Require Import Base ModelSeat ProofsSeatBasic.
+From PF Require Import Base ModelSeat ProofsSeatBasic ProofsSeat.
 
-(* blinds are found by the same clockwise scan; a scan that fails means no playable seat *)
+(* whenever the seat manager successfully moves to the next hand, dealer, small blind and big blind
+   sit on occupied, active, non-reserved seats — for every state, hence every history *)
+Theorem C08_positions_on_playable_seats :
+  forall s s', sm_next s = (s', SOk) ->
+    exists d sb bb, sm_dealer s' = Some d /\ sm_sb s' = Some sb /\ sm_bb s' = Some bb /\
+                    pl s' d = true /\ pl s' sb = true /\ pl s' bb = true.
+Proof. exact sm_next_positions. Qed.
+Print Assumptions C08_positions_on_playable_seats.
+
+(* blinds are found by the clockwise scan; a scan that fails means no playable seat *)
 Theorem C08_scan_none_means_no_playable :
   forall s idxs start, find_active s idxs start = None -> forall i, In i idxs -> playable (get_seat s i) = false.
 Proof. exact find_active_none. Qed.
 Print Assumptions C08_scan_none_means_no_playable.
+
+(* the known finding F11, as a witness on the model: after this history on five seats three seats are
+   playable but the dealer is also the small blind *)
+Example C08_F11_witness :
+  let s := sm_run 5 [OJoin 0 0; OSeat 0; OJoin 1 0; OSeat 1; OJoin 2 0; OJoin 4 0; OSeat 4; ONext;
+                     OLeave 0; OSeat 2; OJoin 3 0; OSeat 3; OLeave 4; ONext] in
+  playable_count s = 3%nat /\ sm_dealer s = sm_sb s.
+Proof. vm_compute. split; reflexivity. Qed.
